@@ -133,6 +133,12 @@ class Verifier:
                 raise Reject("__init__ leaves fields unset: %s" % missing)
             res = SV(info.ty, T.val_mk(info.ty, *[run.coerce(self.building[f], ft).z for f, ft in info.fields.items()]))
         elif c.ret is not None and c.ret != T.NONE:
+            is_none = ret is None or (isinstance(ret, SV) and ret.ty == T.NONE)
+            if is_none and not (isinstance(c.ret, (T.Opt, T.Ref)) or T.is_container(c.ret)):
+                # a path that falls off the end / returns None where the contract declares a value: a failed
+                # obligation on this path (not an engine limit)
+                run.oblige("post.returns_a_value_of_the_declared_type", z3.BoolVal(False), site="exit", kind="post")
+                raise PathEnd()
             res = run.coerce(ret, c.ret)
         if isinstance(res, SV) and not z3.is_const(res.z):
             # name the result, so that quantifier patterns in the postconditions stay legal even when the
